@@ -260,19 +260,6 @@ becomes a REAL, which `LIMIT` rejects ("datatype mismatch", e.g. `LRANGE k 0 922
 The repository model computes in ℤ, so requests near the overflow are left without a claim. -/
 def limitArithSafe (a b : Int) : Bool := a.natAbs < 2 ^ 62 && b.natAbs < 2 ^ 62
 
-/-- `rzset.sqlScan` as the real code answers it: SQLite walks `rzset_score_idx`, so the rows come
-in (score, elem) order, the page is the first `count` of them with `rowid > cursor` that match, and
-the next cursor is the largest rowid of the page. `Model.zScan` (Model/ZSet.lean) currently
-enumerates by elem, which the implementation contradicts (`ZADD z 5 a`, `ZADD z 1 c`, `ZADD z 3 b`,
-`ZSCAN z 0 COUNT 2` → `c b`); until that file is corrected ZSCAN uses this local copy. Read-only,
-so it is the same on a `DB` and on a `Tx`. -/
-def zScanRows (db : DB) (k : Bytes) (cursor : Int) (pat : Bytes) (count : Int) (now : Int) : Val :=
-  let count := if count == 0 then Model.scanPageSize else count
-  let rows := (Model.zLiveRows db k now).filter (fun x =>
-    decide (x.rowid > cursor) && Glob.sqliteGlob pat x.elem)
-  let page := Model.sqlLimit 0 count rows
-  .list [.int (maxD 0 (page.map (·.rowid))), .list (page.map Model.zItem)]
-
 /-! ### `Run` -/
 
 /-- `cmd.Run(w, red)`. `oracle`: for the commands whose result is drawn at random by SQLite or by
@@ -585,7 +572,7 @@ def run (c : ParsedCmd) (r : Runner) (now : Int) (db : DB) (oracle : Option Byte
         | _ => none) (onNotFound [.null])
   -- zset.ZScan.Run
   | .zscan key cursor match_ count =>
-    call c (fun _ n d => .ok (zScanRows d key cursor match_ count n) d) (.zScan key cursor match_ count) now db
+    call c r (.zScan key cursor match_ count) now db
       (fun v => scanReply v (fun l => match vItems l with
         | none => none
         | some items => (itemToksWithScores items).map (fun ts => (items.length * 2, ts))))
